@@ -59,19 +59,24 @@ Definition c20_oracle (gn : option (list str)) (t : list row) (c : c20_case) : o
   match c with
   | KSeq _ _ _ _ => None                                   (* model validation only: panics are intended *)
   | KRows _ _ _ obs => ok_if (all_ok obs)
-  | KRow site _ obs =>
+  | KRow site _ _ =>
+      (* static: the row passes the table check (a panic observed for it fails the KRows case) *)
       match gn, find_row site t with
-      | Some gn, Some r => ok_if (row_ok gn t r && outcome_eqb obs Ok)
+      | Some gn, Some r => ok_if (row_ok gn t r)
       | _, _ => Some 0
       end
   | KReq _ o _ health progress =>
       ok_if (match o with OResp | OErr => true | _ => false end && health && progress)
   end.
 
-(* validity of a recorded case: what the driver guarantees by construction *)
-Definition c20_valid (gn : list str) (t : list row) (c : c20_case) : Prop :=
+(* validity of a recorded metric case: the regenerated table passes the check (Gen.MetricsTableOk.table_ok)
+   and the run used the program's global label names with valid values; request cases are outside
+   the metric model (their oracle is decided by the driver's probes) *)
+Definition c20_valid (gn : option (list str)) (t : list row) (c : c20_case) : Prop :=
   match c with
-  | KRows g sites es obs =>
-      map fst g = gn /\ Forall (fun v => valid_utf8 v = true) (map snd g) /\ check gn t = true
-  | _ => True
+  | KSeq _ _ _ _ => True
+  | KRows g _ _ _ =>
+      exists gn', gn = Some gn' /\ map fst g = gn' /\ Forall (fun v => valid_utf8 v = true) (map snd g) /\ check gn' t = true
+  | KRow _ _ _ => check_program gn t = true
+  | KReq _ _ _ _ _ => False
   end.
